@@ -27,6 +27,13 @@ func runC17(r *Run) {
 		r.LockCheck(lockTable[k])
 	}
 
+	if r.Tier == "thorough" && r.cfg == "" {
+		// discovery: every mutex-bearing struct of the anchored packages is in the lock
+		// table and no field written after construction escapes it without a named reason
+		r.Rule("C17.L0")
+		r.LockDiscover([]string{"submission", "ctpolicy", "jsonclient", "scanner", "ctutil", "trillian/ctfe"}, lockTable, lockExempt)
+	}
+
 	r.Rule("C17.R1")
 	// SubmitToLog: only from the per-log goroutine, gated by request()
 	callers := r.CallersOf("iface(submission.Submitter).SubmitToLog")
